@@ -172,7 +172,9 @@ class RegionGeom:
         costhetaS = (self.core_alt**2 + self.earth_rad_2 - rvsqrd) / (
             2 * self.earth_radius * self.core_alt
         )
-        self.thetaS = np.arccos(costhetaS)
+        # (the cosines and sines below are exactly +-1 at the nadir, at a pole and for a
+        # vertical trajectory and can round a few ulps beyond: keep them in the domain)
+        self.thetaS = np.arccos(np.clip(costhetaS, -1.0, 1.0))
 
         self.costhetaNSubV = (self.core_alt**2 - self.earth_rad_2 - rvsqrd) / (
             2 * self.earth_radius * self.losPathLen
@@ -184,7 +186,7 @@ class RegionGeom:
             self.thetaTrSubV
         ) * np.sin(thetaNSubV) * np.cos(self.phiTrSubV)
 
-        self.thetaTrSubN = np.arccos(self.costhetaTrSubN)
+        self.thetaTrSubN = np.arccos(np.clip(self.costhetaTrSubN, -1.0, 1.0))
 
         self.betaTrSubN = np.degrees(0.5 * np.pi - self.thetaTrSubN)
 
@@ -195,7 +197,7 @@ class RegionGeom:
             self.phiS
         ) + np.sin(self.detLat) * np.cos(self.thetaS)
 
-        latS_rad = np.arcsin(rsinlatS)
+        latS_rad = np.arcsin(np.clip(rsinlatS, -1.0, 1.0))
         self.latS = np.degrees(latS_rad)
 
         rxS = (
